@@ -49,6 +49,28 @@ PROPS = {
         "level_note": "Trusted: harness/oracle (mailbox rules, perft-validated on the six classical positions at every run) and harness/bridge.",
         "technique": "property-based testing (rapid): generated games and synthetic positions, differential oracle + differential perft",
     },
+    "C02": {
+        "title": "successor position",
+        "run": "^TestC02_",
+        "level": "exploration",
+        "shards": 16,
+        "timeout": 420,
+        "thorough_scale": 12,
+        "rule": "C02/walk: generated games followed at the Position level on the position objects the engine itself derives; after "
+                "every move (and for every other legal move at each node, one step deep) placement, castling rights and e.p. target "
+                "are compared with the oracle successor, fen.Encode with the oracle FEN, all views with each other (Square vs 12 piece "
+                "sets vs colour sets vs occupancy vs IsEmpty, disjointness, Rotated()==NewRotatedBitboard(All())), IsAttacked/IsDefended "
+                "for all 64 squares x 2 colours with the oracle attack relation along the main line, and the receiver with a copy taken "
+                "before. C02/synth: every legal move of synthetic positions. Non-trivial = distinct (position, move) where the move is "
+                "a castle / e.p. / promotion / double step, clears an e.p. target or changes castling rights; plus sequences >= 10 plies. "
+                "evaluations = (position, move) pairs judged.",
+        "assumptions": COMMON_ASSUMPTIONS + ["e.p. target is set after every double step (the convention the repository documents and C05 uses)"],
+        "level_text": "Exploration: hundreds of thousands of (position, move) pairs per quick run against the oracle successor, with "
+                      "cross-view consistency and the full attack relation re-checked on incrementally derived positions so that a "
+                      "desynchronised redundant view is caught moves later.",
+        "level_note": "Trusted: harness/oracle Make/Attacked and harness/bridge; Position compared by value.",
+        "technique": "property-based testing (rapid): generated move sequences, oracle successor + cross-view invariants",
+    },
 }
 
 # Properties not claimed, with the reason (kept current).
